@@ -578,19 +578,20 @@ func checkDriverFreshness(c *Ctx, rule string) {
 			continue
 		}
 		n := c.P.CallGraph().Nodes[f]
-		callers := map[string]bool{}
+		callers := map[string]*ssa.Function{}
 		if n != nil {
 			for _, e := range n.In {
 				if core.InModule(e.Caller.Func) {
-					callers[core.FuncName(e.Caller.Func)] = true
+					callers[core.FuncName(e.Caller.Func)] = e.Caller.Func
 				}
 			}
 		}
 		okc := len(callers) > 0
 		var cl []string
-		for k := range callers {
+		for k, cf := range callers {
 			cl = append(cl, k)
-			if !strings.HasPrefix(k, "traceroute.runTracerouteOnce") {
+			// the per-run function itself, one of its closures, or a helper that only it calls
+			if !reachedOnlyFrom(c, cf, "traceroute.runTracerouteOnce", map[*ssa.Function]bool{}) {
 				okc = false
 			}
 		}
